@@ -16,7 +16,6 @@ from typing import (
 import re
 
 import regex
-from itertools import chain
 
 from .partial_parse import PartialParse
 from .rule import _regex as global_regex
@@ -122,7 +121,7 @@ def ctparse(
             txt = _preprocess_string(txt)
             labels = _get_labels(txt)
             txt = re.sub('#[a-zA-Z0-9_-]+', '', txt).strip()
-            subject = ' '.join(re.split(r'[\s-]+', txt))
+            subject = ' '.join(re.findall(r'[^\s-]+', txt))
             return CTParse(None, None, None, subject, labels)
         parsed_list.sort(key=lambda p: p.score)  # type: ignore
         return parsed_list[-1]
@@ -226,16 +225,14 @@ def _ctparse(
 
         # ======================== DUMB-SUBJECT-NER ========================
         # get subject by extracting regex stack from raw text
-        regex_matches = [match.prod for match in stack]
-        regex_matches = [product.match.captures() for tuple in regex_matches for product in tuple]
-        regex_matches = [match.split() for i in regex_matches for match in i]
-        regex_matches = list(chain.from_iterable(regex_matches))
-
-        raw = re.split(r'[\s-]+', txt)
-
-        # subject = list(set(raw) - set(matches)) # doesn't preserve order, but more efficient
-        subject = [i for i in raw if i not in regex_matches]
-        subject = ' '.join(subject)
+        # a word is dropped if it lies inside a match, by position: the same
+        # word elsewhere in the text ("week" next to "next week") is kept
+        spans = {(m.mstart, m.mend) for pp in stack for m in pp.prod}
+        subject = ' '.join(
+            w.group()
+            for w in re.finditer(r'[^\s-]+', txt)
+            if not any(s <= w.start() and w.end() <= e for s, e in spans)
+        )
         # ===========================================================
 
         # track what has been added to the stack and do not add again
